@@ -254,6 +254,7 @@ Definition udp_response := udp_response_gen trunc_no_opt_is_min trunc_questions_
 Inductive opt_state :=
 | OptNone                          (* no OPT (or the record sections do not parse) *)
 | OptOne (size version : N)
+| OptKa (size : N) (timeout : bool) (* one OPT, version 0, with an edns-tcp-keepalive option (with a timeout value or empty) *)
 | OptDup (size : N)                (* more than one OPT; the first one parses *)
 | OptBad.                          (* the first OPT does not parse *)
 
@@ -261,7 +262,7 @@ Inductive opt_state :=
 Record xreq := mkX { x_id : N; x_b2 : N; x_qd : N; x_qs : list question; x_opt : opt_state }.
 
 Definition x_client (x : xreq) : option N :=
-  match x_opt x with OptOne s _ => Some s | OptDup s => Some s | _ => None end.
+  match x_opt x with OptOne s _ => Some s | OptKa s _ => Some s | OptDup s => Some s | _ => None end.
 Definition x_base (x : xreq) : request := mkReq (x_id x) (x_b2 x) (x_qs x) (x_client x).
 Definition x_opcode (x : xreq) : N := (x_b2 x / 8) mod 16.
 
@@ -291,6 +292,7 @@ Definition udp_server_gen (fx fq eq : bool) (x : xreq) (cfg : option N) (svc : s
     | OptDup _ => edns_err rc_formerr
     | OptBad => edns_err rc_formerr
     | OptOne _ v => if edns_version_max <? v then edns_err rc_badvers else serve
+    | OptKa _ _ => serve                 (* the option is ignored over UDP *)
     | OptNone => serve
     end.
 Definition udp_server := udp_server_gen trunc_no_opt_is_min trunc_questions_limited err_resp_first_question_only.
@@ -494,6 +496,81 @@ Definition c16_udp (id b2 : N) (labels : list N) (qtype : N) (client cfg : optio
   do m <- udp_response rq cfg (mk_response rq rb2 rb3 n_an an_len n_ar ar_len opt);
   Ok (observe m).
 
+(* ---- the stream server: EdnsMiddlewareSvc non-UDP arm ----------------------- *)
+
+(* IdleTimeout::try_from(Duration): units of 100 ms in a u16; the option on the
+   wire: code 11, length 2, the value *)
+Definition keepalive_option (idle_ms : N) : option bytes :=
+  let v := (idle_ms / 1000) * 10 + (idle_ms mod 1000) / 100 in
+  if v <? 65536 then Some ([0; 11; 0; 2] ++ be16 v) else None.
+
+Definition strip_opt (m : msg) : msg :=
+  mkMsg (m_id m) (m_b2 m) (m_b3 m) (m_qs m) (m_an m) (m_ns m) (filter (fun r => negb (is_opt r)) (m_ar m)).
+Definition with_ar (m : msg) (ar : list rr) : msg :=
+  mkMsg (m_id m) (m_b2 m) (m_b3 m) (m_qs m) (m_an m) (m_ns m) ar.
+
+(* util.rs add_edns_options with one option: the additional section is rebuilt,
+   non-OPT records first, then the (first) OPT with the option appended; a push
+   that would pass 65535 octets fails and leaves what was rebuilt so far *)
+Definition add_option (m : msg) (ka : bytes) : msg :=
+  match first_opt (m_ar m) with
+  | Some o =>
+      let others := filter (fun r => negb (is_opt r)) (m_ar m) in
+      let o' := mkOpt (o_size o) (o_ttl o) (o_data o ++ ka) in
+      if 65535 <? mlen (with_ar m (others ++ [RROpt o'])) then with_ar m others
+      else with_ar m (others ++ [RROpt o'])
+  | None =>
+      let o' := mkOpt 0 0 ka in
+      if 65535 <? mlen (with_ar m (m_ar m ++ [RROpt o'])) then m else with_ar m (m_ar m ++ [RROpt o'])
+  end.
+
+(* edns.rs postprocess on a stream: req_has_opt = request.message().opt() is
+   some, req_any_opt = the additional section yields an OPT item at all (even
+   one that does not parse) *)
+Definition edns_post_tcp (req_has_opt req_any_opt : bool) (idle_ms : option N) (m : msg) : msg :=
+  let m1 := if negb req_has_opt then strip_opt m else m in
+  let m2 := if req_any_opt then
+              match idle_ms with
+              | Some ms => match keepalive_option ms with Some ka => add_option m1 ka | None => m1 end
+              | None => m1
+              end
+            else m1 in
+  if req_has_opt then
+    match first_opt (m_ar m2) with
+    | Some _ => m2
+    | None => if 65535 <? mlen m2 + 11 then m2 else with_ar m2 (m_ar m2 ++ [RROpt empty_opt])
+    end
+  else m2.
+
+Definition x_any_opt (x : xreq) : bool := match x_opt x with OptNone => false | _ => true end.
+
+(* what a StreamServer connection writes (before framing) for one request *)
+Definition tcp_server_gen (fx fq eq : bool) (x : xreq) (idle_ms : option N) (svc : svc_result)
+  : outcome (option msg) :=
+  let rq := x_base x in
+  let has_opt := is_some (x_client x) in
+  let post m := mandatory_post_gen fx fq eq false rq None m in
+  if N.testbit (x_b2 x) 7 then Ok (Some (error_response_gen eq rq rc_formerr))
+  else if x_opcode x =? opcode_iquery then Ok (Some (post (error_response_gen eq rq rc_notimp)))
+  else if (x_opcode x =? opcode_query) && (qdcount_max <? x_qd x) then
+    Ok (Some (post (error_response_gen eq rq rc_formerr)))
+  else
+    let edns_err rc := Ok (Some (post (edns_post_tcp has_opt (x_any_opt x) idle_ms (error_response_gen eq rq rc)))) in
+    let serve :=
+      match svc with
+      | SvcOk m => Ok (Some (post (edns_post_tcp has_opt (x_any_opt x) idle_ms m)))
+      | SvcErr rc => Ok (Some (error_response_gen eq rq rc))
+      | SvcNone => Ok None
+      end in
+    match x_opt x with
+    | OptDup _ => edns_err rc_formerr
+    | OptBad => edns_err rc_formerr
+    | OptOne _ v => if edns_version_max <? v then edns_err rc_badvers else serve
+    | OptKa _ timeout => if timeout then edns_err rc_formerr else serve
+    | OptNone => serve
+    end.
+Definition tcp_server := tcp_server_gen trunc_no_opt_is_min trunc_questions_limited err_resp_first_question_only.
+
 (* the server as a whole: request with nq copies of one question, QDCOUNT qd *)
 Definition mk_xreq (id b2 qd nq : N) (labels : list N) (qtype : N) (opt : opt_state) : xreq :=
   mkX id b2 qd (repeat (mkQ (mk_name labels) qtype 1) (N.to_nat nq)) opt.
@@ -513,6 +590,21 @@ Definition c16_srv (id b2 qd nq : N) (labels : list N) (qtype : N) (opt : opt_st
             end in
   do r <- udp_server x cfg sr;
   Ok (match r with Some m => Some (observe2 m) | None => None end).
+
+Definition observe3 (m : msg) :=
+  (observe2 m, match first_opt (m_ar m) with Some o => len (o_data o) | None => 0 end).
+
+Definition c16_tcp (id b2 qd nq : N) (labels : list N) (qtype : N) (opt : opt_state) (idle_ms : option N)
+  (svc : option ((N * N * N * N * N * N * option (N * N)) + N)) :=
+  let x := mk_xreq id b2 qd nq labels qtype opt in
+  let sr := match svc with
+            | None => SvcNone
+            | Some (inr rc) => SvcErr rc
+            | Some (inl (rb2, rb3, n_an, an_len, n_ar, ar_len, o)) =>
+                SvcOk (mk_response (x_base x) rb2 rb3 n_an an_len n_ar ar_len o)
+            end in
+  do r <- tcp_server x idle_ms sr;
+  Ok (match r with Some m => Some (observe3 m) | None => None end).
 
 Definition c16_frame_out (m : bytes) : outcome bytes := frame_out m.
 Definition c16_conn (chunks : list bytes) : bool * list conn_event :=
